@@ -60,6 +60,7 @@ def judgeDefRes (prop : String) (cid : String) (o : Op) (res : Except ErrCode Gr
   if rc != 0 then
     let msgLen := kvInt obs "msglen"
     out := out.v cid o.n "C15" "K" (msgLen > 0) s!"msglen={msgLen}"
+    out := out.v cid o.n "C12" "K" (msgLen ≤ 200) s!"error message fits its buffer: msglen={msgLen}"
   out := out.s cid s!"def rc={rc}"
   match res with
   | .ok g =>
